@@ -171,6 +171,7 @@ def string_plans(X, level):
     forms += sorted(muts)
     forms += ["1H", "H 2", " H", "H\t", "H2O\n", "H1e2", "H1E2", "H0x10", "H00", "H.5", "H5.", "H0", "H0.0", "H-1", "H+1", "H1.5.2", "HO0", "(H)0", "H2(O)", "H99999999999999999999",
               "H1e400", "Hh", "HHe", "HeH", "CO", "Co", "cO", "NO", "No", "Uuo", "Uue", "Og", "Nh", "D2O", "T", "X", "Xx"]
+    forms += domains.subscript_edge_formulas() + domains.parser_fault_strings() + domains.short_strings(5 if level == 0 else 6)
     variants = lambda names: names + [n.lower() for n in names[:20]] + [n.upper() for n in names[:20]] + [n + " " for n in names[:20]] + [" " + n for n in names[:5]] + [n[:-1] for n in names[:20]]
     out = [c03.Plan("CompoundParser", "op", "s", [forms], op="CompoundParser"),
            c03.Plan("NISTByName", "op", "s", [variants(nist)], op="NISTByName"),
